@@ -343,8 +343,7 @@ def rule_R5(P, rep):
 
 
 def run(P, rep, tier):
-    if tier == "thorough":
-        common.rule_X4(P, rep)
+    common.rule_X4(P, rep)
     common.run_shared(P, rep, which=("X1", "X2"))
     rule_R1_R2(P, rep)
     rule_R3(P, rep)
